@@ -43,7 +43,7 @@ ExactRegIds == {regs[k].id : k \in {kk \in DOMAIN regs : kk[2] = "exact"}}
 Canon(m) ==
   LET m1 == IF m.k = "INVOCATION" /\ m.a \in ExactRegIds THEN [m EXCEPT !.w = <<>>] ELSE m
   IN IF "details" \notin Classes /\ m.k \in {"EVENT", "INVOCATION"}
-     THEN [m1 EXCEPT !.d = {p \in @ : p[1] \in {"receive_progress", "timeout", "progress"}}] ELSE m1
+     THEN [m1 EXCEPT !.d = {p \in @ : p[1] \in {"receive_progress", "timeout", "progress", "ppt_scheme"}}] ELSE m1
 
 Proj(q) == SelectSeq(q, LAMBDA m : Class(m) \in Classes \/ Class(m) = "other")
 
@@ -177,7 +177,7 @@ ApplyAllowed(i, b) ==
                         /\ CallPre(Cur, i.s, i.req, i.uri, k, callee, inv)
                         /\ Commit(CallFx(Cur, i.s, i.req, i.uri, i.o, i.tag, k, callee, inv))
     [] i.op = "cancel"   -> Live(i.s) /\ Commit(CancelFx(Cur, i.s, i.req, i.o.mode))
-    [] i.op = "yield"    -> Live(i.s) /\ Commit(YieldFx(Cur, i.s, i.id, i.o.prog, i.tag))
+    [] i.op = "yield"    -> Live(i.s) /\ Commit(YieldFx(Cur, i.s, i.id, i.o.prog, i.o.ppt, i.tag))
     [] i.op = "inverror" -> Live(i.s) /\ Commit(InvErrorFx(Cur, i.s, i.id, i.o.err, i.tag))
     [] i.op = "leave"    -> Live(i.s) /\ Commit(LeaveFx(Cur, i.s, i.how, ""))
     [] i.op = "advance"  -> Commit(AdvanceFx(Cur, i.ms))
